@@ -177,6 +177,13 @@ ApiRes(p, e) ==
     [] e.op = "set_bits"           -> (IF ver = 3 THEN A3!ApiSetBits(p, e.p, "") ELSE A4!ApiSetBits(p, e.p, "")).res
     [] e.op \in {"set_ctime", "touch"} -> (IF ver = 3 THEN A3!ApiSetCTime(p, e.p, z) ELSE A4!ApiSetCTime(p, e.p, z)).res
     [] e.op = "set_mtime"          -> (IF ver = 3 THEN A3!ApiSetMTime(p, e.p, z) ELSE A4!ApiSetMTime(p, e.p, z)).res
+    \* (the lookups are compared on every 16th line only: the query batteries issue them by the hundred thousand)
+    [] e.op \in {"entry", "open_stream", "read_storage", "walk_storage"} /\ l % 16 # 0 -> [k |-> "?"]
+    [] e.op = "entry"              -> (IF ver = 3 THEN A3!ApiEntry(p, e.p) ELSE A4!ApiEntry(p, e.p)).res
+    [] e.op = "open_stream"        -> (IF ver = 3 THEN A3!ApiOpenStream(p, e.p) ELSE A4!ApiOpenStream(p, e.p)).res
+    [] e.op = "read_storage"       -> (IF ver = 3 THEN A3!ApiReadStorage(p, e.p) ELSE A4!ApiReadStorage(p, e.p)).res
+    [] e.op = "walk_storage"       -> (IF ver = 3 THEN A3!ApiWalkStorage(p, e.p) ELSE A4!ApiWalkStorage(p, e.p)).res
+    [] e.op \in {"read", "write", "set_len"} /\ Has(e, "p") -> (IF ver = 3 THEN A3!ApiOpenStream(p, e.p) ELSE A4!ApiOpenStream(p, e.p)).res
     [] OTHER -> [k |-> "?"]
 ApiAgrees(p, e) ==
   LET r == ApiRes(p, e) IN
